@@ -3,6 +3,7 @@ package simrt
 import (
 	"encoding/json"
 	"fmt"
+	mrand "math/rand"
 	"os"
 	"path/filepath"
 	"runtime/debug"
@@ -228,6 +229,10 @@ func RunPlan(t *testing.T, p *Plan, keepLog bool) (res *Result) {
 			}
 		}()
 		synctest.Test(t, func(t *testing.T) {
+			// the code under test draws from the global math/rand (resize job ids,
+			// replica choice for exports); seeded per run (the test binary is built
+			// with //go:debug randseednop=0, see harness/ext/zz_verif_c30_test.go)
+			mrand.Seed(p.Seed)
 			s := NewSched(cfg)
 			c = &Ctx{Plan: p, S: s, Dir: dir, T: t, probes: map[string]int{}}
 			Install(s)
